@@ -16,6 +16,7 @@ mod mon;
 mod proc;
 mod refspec;
 mod report;
+mod search;
 mod streams;
 mod util;
 
@@ -30,7 +31,9 @@ mod c08;
 mod c09;
 mod c10;
 mod c11;
+mod c14;
 mod c15;
+mod c16;
 mod c17;
 mod c18;
 mod c19;
@@ -61,7 +64,9 @@ fn checks() -> Vec<Check> {
         Check { id: "C09", level: "exploration", run: c09::run, replay: c09::replay },
         Check { id: "C10", level: "fault_enumeration", run: c10::run, replay: c10::replay },
         Check { id: "C11", level: "exploration", run: c11::run, replay: c11::replay },
+        Check { id: "C14", level: "model_checking", run: c14::run, replay: c14::replay },
         Check { id: "C15", level: "exploration", run: c15::run, replay: c15::replay },
+        Check { id: "C16", level: "model_checking", run: c16::run, replay: c16::replay },
         Check { id: "C17", level: "exploration", run: c17::run, replay: c17::replay },
         Check { id: "C18", level: "exploration", run: c18::run, replay: c18::replay },
         Check { id: "C19", level: "exploration", run: c19::run, replay: c19::replay },
